@@ -1,5 +1,6 @@
 (* Props_C10.v — C10: incarnation discipline, self-refutation and reaction to one's own death. *)
 From Foca Require Import Laws MembersM FocaM WireM L_Members L_MembersInv L_Join Inv L_Wire L_Discard L_Mech L_IncMono.
+From Foca Require Import L_Evidence L_IncHist.
 
 Section C10.
 Context {Id Addr : Type} {IO : IdOps Id Addr} {CO : CodecOps Id} {HO : HandlerOps Id}.
@@ -87,6 +88,22 @@ Theorem C10_incarnation_is_u16 (rnd : oracle) (f : @foca Id Addr HO) (i : @input
   incarnation f <= u16_max -> incarnation (fst (fst (fst (step rnd f i)))) <= u16_max.
 Proof. exact (step_inc_u16 rnd f i). Qed.
 
+(* OVER WHOLE CALL HISTORIES without change_identity / reuse_down_identity: the own incarnation never
+   decreases while the identity is in use and stays a u16; the identity only ever moves to a
+   same-address identity that wins against the earlier one *)
+Theorem C10_monotone_along_histories (rnd : oracle) (l : list (@input Id)) (f : @foca Id Addr HO) :
+  no_identity_api l -> incarnation f <= u16_max ->
+  let g := run_calls rnd f l in
+  incarnation g <= u16_max
+  /\ ((identity g = identity f /\ incarnation f <= incarnation g)
+      \/ (addr_of (identity g) = addr_of (identity f) /\ wins (identity g) (identity f) = true)).
+Proof. exact (history_inc_mono rnd l f). Qed.
+
+Theorem C10_no_identity_api_meaning (i : @input Id) (l : list (@input Id)) :
+  (@no_identity_api Id [] <-> True)
+  /\ (no_identity_api (i :: l) <-> match i with IChangeIdentity _ | IReuseDown => False | _ => no_identity_api l end).
+Proof. split; reflexivity. Qed.
+
 End C10.
 
 Print Assumptions C10_monotone_call.
@@ -98,3 +115,5 @@ Print Assumptions C10_header_is_current.
 Print Assumptions C10_no_fabrication.
 Print Assumptions C10_down_dichotomy.
 Print Assumptions C10_defunct_does_not_refute.
+Print Assumptions C10_monotone_along_histories.
+Print Assumptions C10_no_identity_api_meaning.
